@@ -342,3 +342,54 @@ class SimpleCfg:
 REALLOC_DIRECT = [SimpleCfg("rd", "realloc_direct_main.cpp", "c++17"), SimpleCfg("rd", "realloc_direct_main.cpp", "c++11")]
 ALGO_QUICK = [SimpleCfg("ma", "mem_algos_main.cpp", s) for s in ("c++11", "c++14", "c++17", "c++20")]
 ALGO_THOROUGH = [SimpleCfg("ma", "mem_algos_main.cpp", s, "clang++-14") for s in ("c++11", "c++14", "c++17", "c++20")]
+
+
+class NestedCfg:
+    """Outer amc vector whose elements are amc containers (Inner) of Elem"""
+
+    def __init__(self, elem, inner, outer, oalloc="exact", std="c++17", compiler="g++"):
+        self.elem, self.inner, self.outer, self.oalloc, self.std, self.compiler = elem, inner, outer, oalloc, std, compiler
+        self.name = "nest_%s_%s_in_%s_%s_%s_%s" % (elem, inner, outer, oalloc, std.replace("c++", "cxx"), "gcc" if compiler == "g++" else "clang")
+
+    def source(self):
+        e = vec.ELEMS[self.elem]
+        ia = "vf::ExactAlloc<%s, vf::FAM_EXACT2>" % e
+        k = self.inner
+        if k.startswith("fs_s"):
+            inner = "amc::FlatSet<%s, std::less<%s>, %s, amc::SmallVector<%s, %d, %s> >" % (e, e, ia, e, int(k[4:]), ia)
+        elif k.startswith("fs_f"):
+            inner = "amc::FlatSet<%s, std::less<%s>, amc::vec::EmptyAlloc, amc::FixedCapacityVector<%s, %d> >" % (e, e, e, int(k[4:]))
+        elif k == "fs_v":
+            inner = "amc::FlatSet<%s, std::less<%s>, %s>" % (e, e, ia)
+        elif k.startswith("ssf"):
+            inner = "amc::SmallSet<%s, %d, std::less<%s>, %s, amc::FlatSet<%s, std::less<%s>, %s> >" % (e, int(k[3:]), e, ia, e, e, ia)
+        elif k.startswith("ss"):
+            inner = "amc::SmallSet<%s, %d, std::less<%s>, %s>" % (e, int(k[2:]), e, ia)
+        elif k.startswith("s"):
+            inner = "amc::SmallVector<%s, %d, %s>" % (e, int(k[1:]), ia)
+        elif k.startswith("f"):
+            inner = "amc::FixedCapacityVector<%s, %d>" % (e, int(k[1:]))
+        else:
+            inner = "amc::vector<%s, %s>" % (e, ia)
+        oa = {"exact": "vf::ExactAlloc<Inner>", "amc": "amc::allocator<Inner>", "realloc": "vf::ReallocAlloc<Inner>"}[self.oalloc]
+        outer = "amc::vector<Inner, %s>" % oa if self.outer == "v" else "amc::SmallVector<Inner, %d, %s>" % (int(self.outer[1:]), oa)
+        # what the harness (not amc) knows: is the inner container type safe to move by raw bytes?
+        elem_reloc = self.elem not in ("NTR", "NTRTM")
+        inner_reloc = (k == "v") or (k == "fs_v") or (elem_reloc and not (k.startswith("ss") and not k.startswith("ssf")))
+        return ('#define VF_CFG_NAME "%s"\n#include <functional>\n#include <amc/smallset.hpp>\n#include <amc/flatset.hpp>\n#include <amc/fixedcapacityvector.hpp>\n#include "mon/cmp.hpp"\n'
+                '#include "mon/alloc.hpp"\nusing Elem = %s;\nusing Inner = %s;\nusing Outer = %s;\nnamespace vf { template <> struct HarnessReloc<Inner> { static int get() { return %d; } }; }\n'
+                '#include "nested_main.hpp"\n') % (self.name, e, inner, outer, 1 if inner_reloc else 0)
+
+    def spec(self):
+        return {"name": self.name, "source": self.source(), "std": self.std, "compiler": self.compiler, "extra": ["-DAMC_NONSTD_FEATURES"]}
+
+
+NESTED_QUICK = [
+    NestedCfg("NTR", "s2", "v"), NestedCfg("NTR", "s1", "s2", "amc"), NestedCfg("NTR", "f2", "v", "realloc"), NestedCfg("NTR", "fs_s2", "v", "amc"),
+    NestedCfg("TR", "s3", "v", "realloc"), NestedCfg("NTR", "fs_f4", "s2"), NestedCfg("TR", "ssf3", "v", "amc"), NestedCfg("NTR", "ss3", "v"),
+    NestedCfg("NTR", "v", "s2", "realloc"), NestedCfg("TR", "fs_v", "v", "realloc"),
+]
+NESTED_THOROUGH = [
+    NestedCfg("NTR", "f1", "v", "amc"), NestedCfg("TR", "f4", "s2", "realloc"), NestedCfg("NTR", "ssf3", "v", "realloc"), NestedCfg("TR", "fs_s2", "s2", "amc"),
+    NestedCfg("NTR", "s8", "v", "amc"), NestedCfg("NTR", "s2", "v", compiler="clang++-14"), NestedCfg("NTR", "fs_s2", "v", "amc", std="c++20"),
+]
